@@ -138,6 +138,49 @@ struct S2 : FSM2::State {
 
 struct H2 : S2<9> {}; struct X2 : S2<0> {}; struct Y2 : S2<1> {}; struct Z2 : S2<2> {};
 
+
+// ---------------------------------------------------------------------------
+// sections that USE one optional feature each (compiled with -DSCN_USE_<feature>; the driver then
+// compares across all combinations of the OTHER switches)
+
+#ifdef SCN_USE_PLANS
+typedef ffsm2::MachineT<ffsm2::Config::ContextT<Ctx*> > M3;
+struct P0; struct P1; struct P2; struct P3; struct P4; struct P5;
+typedef M3::PeerRoot<P0, P1, P2, P3, P4, P5> FSM3;
+template <unsigned ID>
+struct S3 : FSM3::State {
+	void enter(PlanControl& c) { c.context()->trace->add("3en", ID, c.stateId(), 0); }
+	void update(FullControl& c) { c.context()->trace->add("3up", ID, c.stateId(), 0); if (c.context()->rng->below(4) != 0) c.succeed(); }
+	void exit(PlanControl& c) { c.context()->trace->add("3ex", ID, c.stateId(), 0); }
+};
+struct P0 : S3<0> {}; struct P1 : S3<1> {}; struct P2 : S3<2> {}; struct P3 : S3<3> {}; struct P4 : S3<4> {}; struct P5 : S3<5> {};
+
+typedef ffsm2::MachineT<ffsm2::Config::ContextT<Ctx*>::TaskCapacityN<2>::PayloadT<Pay> > M4;
+struct H4; struct Q0; struct Q1; struct Q2;
+typedef M4::Root<H4, Q0, Q1, Q2> FSM4;
+struct H4 : FSM4::State {
+	void planSucceeded(FullControl& c) { c.context()->trace->add("4ps", 0, 0, 0); c.changeTo<Q0>(); }
+	void planFailed(FullControl& c) { c.context()->trace->add("4pf", 0, 0, 0); }
+};
+template <unsigned ID>
+struct S4 : FSM4::State {
+	void enter(PlanControl& c) { c.context()->trace->add("4en", ID, c.currentTransition().destination, c.currentTransition().payload() ? static_cast<unsigned>(c.currentTransition().payload()->a & 0xff) : 255u); }
+	void update(FullControl& c) { const unsigned r = c.context()->rng->below(5); if (r == 0) c.fail(); else if (r < 4) c.succeed(); }
+};
+struct Q0 : S4<0> {}; struct Q1 : S4<1> {}; struct Q2 : S4<2> {};
+#endif
+
+#ifdef SCN_USE_LOG
+struct CountingLogger : FSM1::Logger {
+	Trace* trace;
+	unsigned long transitions, cancels;
+	explicit CountingLogger(Trace* t) : trace(t), transitions(0), cancels(0) {}
+	typedef FSM1::Logger::Context LC;
+	void recordTransition(const LC&, const ffsm2::StateID origin, const ffsm2::StateID target) { ++transitions; trace->add("Lt", origin, target, 0); }
+	void recordCancelledPending(const LC&, const ffsm2::StateID origin) { ++cancels; trace->add("Lc", origin, 0, 0); }
+};
+#endif
+
 static void observe1(Trace& t, const FSM1::Instance& m) {
 	unsigned mask = 0;
 	for (unsigned i = 0; i < 5; ++i) if (m.isActive(static_cast<ffsm2::StateID>(i))) mask |= 1u << i;
@@ -202,6 +245,107 @@ int main(int argc, char** argv) {
 			observe2(trace, m);
 		}
 	}
+
+#ifdef SCN_USE_PLANS
+	{
+		Ctx ctx = { &trace, &cbRng, 3 };
+		FSM3::Instance m(&ctx);
+		for (unsigned round = 0; round < 40; ++round) {
+			unsigned accepted = 0;
+			// a chain through all states, then keep appending until the plan refuses
+			for (unsigned i = 0; i < 5; ++i) accepted += m.plan().change(static_cast<ffsm2::StateID>(i), static_cast<ffsm2::StateID>(i + 1)) ? 1 : 0;
+			for (unsigned i = 0; i < 12 && m.plan().change(5, 0); ++i) ++accepted;
+			trace.add("3pl", accepted, 0, 0);
+			unsigned n = 0;
+			for (FSM3::Instance::CPlan::Iterator it(static_cast<const FSM3::Instance&>(m).plan()); it; ++it) { trace.add("3tk", it->origin, it->destination, n); ++n; }
+			for (unsigned step = 0; step < 10; ++step) { m.update(); trace.add("3ob", m.activeStateId(), 0, 0); }
+			m.plan().clear();
+			m.immediateChangeTo(static_cast<ffsm2::StateID>(drv.below(6)));
+		}
+	}
+	{
+		Ctx ctx = { &trace, &cbRng, 4 };
+		FSM4::Instance m(&ctx);
+		for (unsigned round = 0; round < 120; ++round) {
+			const ffsm2::StateID d1 = static_cast<ffsm2::StateID>(drv.below(3));
+			const Pay p1 = mkPay(drv.below(200));
+			const bool a = m.plan().changeWith(m.activeStateId(), d1, p1);
+			const ffsm2::StateID o2 = static_cast<ffsm2::StateID>(drv.below(3));
+			const ffsm2::StateID d2 = static_cast<ffsm2::StateID>(drv.below(3));
+			const bool b = m.plan().change(o2, d2);
+			const bool c = m.plan().change(0, 1);
+			trace.add("4pl", a, b, c);
+			if (drv.below(4) == 0) m.succeed(m.activeStateId());
+			if (drv.below(9) == 0) m.fail(static_cast<ffsm2::StateID>(drv.below(3)));
+			for (unsigned step = 0; step < 3; ++step) { m.update(); trace.add("4ob", m.activeStateId(), static_cast<bool>(static_cast<const FSM4::Instance&>(m).plan()) ? 1 : 0, 0); }
+		}
+	}
+#endif
+#ifdef SCN_USE_SERIALIZATION
+	{
+		Ctx ctx = { &trace, &cbRng, 5 };
+		FSM1::Instance a(ctx), b(ctx);
+		for (unsigned round = 0; round < 60; ++round) {
+			a.immediateChangeTo(static_cast<ffsm2::StateID>(drv.below(5)));
+			b.immediateChangeTo(static_cast<ffsm2::StateID>(drv.below(5)));
+			FSM1::Instance::SerialBuffer buf;
+			a.save(buf);
+			for (unsigned i = 0; i < sizeof(buf); ++i) trace.add("5by", i, reinterpret_cast<const unsigned char*>(&buf)[i], 0);
+			b.load(buf);
+			trace.add("5ld", a.activeStateId(), b.activeStateId(), 0);
+		}
+		Ctx ctx2 = { &trace, &cbRng, 6 };
+		FSM2::Instance c(&ctx2), d(&ctx2);
+		for (unsigned round = 0; round < 60; ++round) {
+			if (drv.below(3) == 0) { if (c.isActive()) c.exit(); } else { if (!c.isActive()) c.enter(); c.immediateChangeTo(static_cast<ffsm2::StateID>(drv.below(3))); }
+			if (drv.below(3) == 0) { if (d.isActive()) d.exit(); } else if (!d.isActive()) d.enter();
+			FSM2::Instance::SerialBuffer buf;
+			c.save(buf);
+			for (unsigned i = 0; i < sizeof(buf); ++i) trace.add("6by", i, reinterpret_cast<const unsigned char*>(&buf)[i], 0);
+			d.load(buf);
+			trace.add("6ld", c.activeStateId(), d.activeStateId(), d.isActive() ? 1 : 0);
+		}
+		if (c.isActive()) c.exit();
+		if (d.isActive()) d.exit();
+	}
+#endif
+#ifdef SCN_USE_HISTORY
+	{
+		Ctx ctx = { &trace, &cbRng, 7 };
+		FSM2::Instance m(&ctx), replica(&ctx);
+		m.enter();
+		replica.replayEnter(m.previousTransition() ? m.previousTransition().destination : static_cast<ffsm2::StateID>(0));
+		for (unsigned step = 0; step < 400; ++step) {
+			const unsigned op = drv.below(4);
+			if (op == 0) m.update();
+			else if (op == 1) m.changeTo(static_cast<ffsm2::StateID>(drv.below(3)));
+			else if (op == 2) { const ffsm2::StateID d = static_cast<ffsm2::StateID>(drv.below(3)); const Pay p = mkPay(drv.below(200)); m.immediateChangeWith(d, p); }
+			else { Event e = { 3 }; m.react(e); }
+			const FSM2::Transition& pt = m.previousTransition();
+			trace.add("7pt", pt ? pt.destination : 254, pt.origin, payOf(pt));
+			if (op != 1 && pt) replica.replayTransition(pt.destination);
+			trace.add("7rp", m.activeStateId(), replica.activeStateId(), 0);
+		}
+		replica.exit();
+		m.exit();
+	}
+#endif
+#ifdef SCN_USE_LOG
+	{
+		Ctx ctx = { &trace, &cbRng, 8 };
+		CountingLogger logger(&trace);
+		FSM1::Instance m(ctx, &logger);
+		for (unsigned step = 0; step < 300; ++step) {
+			const unsigned op = drv.below(5);
+			if (op < 2) m.update();
+			else if (op == 2) { Event e = { drv.below(100) }; m.react(e); }
+			else if (op == 3) m.changeTo(static_cast<ffsm2::StateID>(drv.below(5)));
+			else m.attachLogger(drv.below(2) ? &logger : 0);
+			observe1(trace, m);
+		}
+		trace.add("8lg", static_cast<unsigned>(logger.transitions & 0xff), static_cast<unsigned>(logger.cancels & 0xff), 0);
+	}
+#endif
 	printf("DIGEST %016llx lines=%lu\n", static_cast<unsigned long long>(trace.h), trace.lines);
 	return 0;
 }
